@@ -144,8 +144,9 @@ func BuildFromRecording(rec *MemoryRecorder, store factstore.ReadOnlyFactStore, 
 		store:   store,
 		opts:    opts,
 		cache:   make(map[uint64][]*ProofNode),
-		onStack: make(map[uint64]bool),
+		onStack: make(map[uint64]int),
 		ruleIDs: make(map[string]string),
+		minCut:  noCut,
 	}
 	proofs := b.build(goal, 0)
 	if len(proofs) == 0 {
@@ -159,7 +160,8 @@ type builder struct {
 	store   factstore.ReadOnlyFactStore
 	opts    Options
 	cache   map[uint64][]*ProofNode
-	onStack map[uint64]bool
+	onStack map[uint64]int    // goal hash -> position on the stack
+	minCut  int               // see explainer.minCut
 	ruleIDs map[string]string // rule.String() -> rule content ID
 }
 
@@ -171,11 +173,22 @@ func (b *builder) build(goal ast.Atom, depth int) []*ProofNode {
 	if cached, ok := b.cache[h]; ok {
 		return cached
 	}
-	if b.onStack[h] {
+	if pos, ok := b.onStack[h]; ok {
+		if pos < b.minCut {
+			b.minCut = pos
+		}
 		return nil
 	}
-	b.onStack[h] = true
+	myPos := len(b.onStack)
+	b.onStack[h] = myPos
 	defer delete(b.onStack, h)
+	outerCut := b.minCut
+	b.minCut = noCut
+	defer func() {
+		if outerCut < b.minCut {
+			b.minCut = outerCut
+		}
+	}()
 
 	var proofs []*ProofNode
 	events := b.rec.EventsFor(goal)
@@ -198,7 +211,11 @@ func (b *builder) build(goal ast.Atom, depth int) []*ProofNode {
 		}
 		proofs = append(proofs, p)
 	}
-	b.cache[h] = proofs
+	// Only reuse results that do not depend on a goal further up the stack
+	// having been cut out of the search.
+	if b.minCut >= myPos {
+		b.cache[h] = proofs
+	}
 	return proofs
 }
 
